@@ -127,6 +127,31 @@ m = {
  "not_applicable": [],
  "notes": "All checks decide their property from /repo's current source without running it (see DESIGN.md). Exit 2 without a VIOLATION line means the checker itself is broken.",
 }
+# Structural clauses added after independently seeded changes were missed (DESIGN.md §I.5).
+WIDEN = "no 8/16-bit + * << whose result is later widened may wrap (E1 proof)"
+EXACT = "guards on a read's upper bound admit hi == len(input) (no exact-fit input is rejected)"
+EXT = {
+ "C01": ("; E1 cursor proof of contiguous input consumption in MD4.Write", " Added: MD4.Write hands the bytes of its argument to its consumers contiguously (first at 0, each next where the previous ended, cursor == len(p) at return, copy destinations long enough), proved with the linear prover over the CFG for the index-cursor idiom."),
+ "C02": ("", " A return that forwards a callee's (value, err) pair counts as a success path of the response builders."),
+ "C03": ("; shared widen-after-wrap and exact-fit rules", " Added: " + WIDEN + "; " + EXACT + "."),
+ "C04": ("; shared widen-after-wrap rule", " Added: " + WIDEN + "."),
+ "C06": ("; shared widen-after-wrap and exact-fit rules", " Added: " + WIDEN + "; " + EXACT + "."),
+ "C08": ("; shared widen-after-wrap and exact-fit rules", " Added: " + WIDEN + "; " + EXACT + "."),
+ "C09": ("; decoded-field identity, widen-after-wrap and exact-fit rules", " Added: a struct field filled from an integer wire read holds exactly that read on every path; " + WIDEN + "; " + EXACT + "."),
+ "C10": ("; decoded-field identity and widen-after-wrap rules", " Added: a struct field filled from an integer wire read holds exactly that read on every path; " + WIDEN + "."),
+ "C11": ("; shared widen-after-wrap rule", " Added: " + WIDEN + "."),
+ "C12": ("; must-write-back of stream state, truth-table domain of the PKCS#7 block-size guard, and abstract interpretation over Z/4 of the base64 re-padding", " Added: RC4.XORKeyStream and cmac.Write store every state field they advance; pkcs7.Pad's guards on its uint8 block size reject 0 only; for every residue of the input length the string handed to base64.StdEncoding.DecodeString has length = 0 mod 4."),
+ "C14": ("; payload-emission conditions, verbatim flow of the DN, widen-after-wrap and exact-fit rules", " Added: a key-material field whose length slot is unconditional is emitted under conditions on that field only; DistinguishedName reaches its field through conversions/SplitN only; " + WIDEN + "; " + EXACT + "."),
+ "C15": ("; E1 range proof of the 60-bit UUID timestamp at every store in SetTime", " Added: every value SetTime stores into the UUID Time field is proved <= 2^60-1."),
+ "C16": ("; shared widen-after-wrap rule", " Added: " + WIDEN + "."),
+ "C17": ("; control-dependence rules owner-gate, conflict-unique and expiry-gate on the CFG", " Added necessary conditions of the semantics clauses: every table mutation in owner-taking methods is control-dependent on a positive ownership comparison; no mutation is reachable from the is-Unique outcome of RegisterName's type tests; every sweeping delete is dominated by a positive TTL test with no unlock in between. The full conflict matrix remains undecided."),
+ "C18": ("; per-iteration allocation of request objects, connection-registry key provenance, and must-execute of close() inside Once bodies", " Added: no object allocated outside a goroutine-spawning loop and written inside it reaches a go statement of that loop; a connection registry key is the connection or derives from RemoteAddr(); a Once body that closes a channel closes it on every path."),
+ "C20": ("; no signed view of an unsigned difference in network/ip, forbidden dependence of IsInSubnet on the host's own prefix, regexp/syntax case analysis of constant patterns", " Added: no function of network/ip reinterprets an unsigned difference as signed; IsInSubnet does not depend on the host operand's prefix length; every constant pattern ParseLMNTHashes matches against admits both letter cases."),
+}
+for _i, (_t, _x) in EXT.items():
+    CLAIMS[_i]["technique"] += _t
+    CLAIMS[_i]["text"] += _x
+
 NA = {}
 na_path = os.path.join(V, "tools", "not_applicable.json")
 if os.path.exists(na_path):
